@@ -3,7 +3,8 @@
     them that do not need a sweep over [roundtrip]. *)
 From Coq Require Import NArith List Bool Arith Lia.
 From PLV Require Import Base.PyStr L2T.L2T Enc.Encoder Enc.Builtin Enc.RoundTrip.
-From PLV Require Import Proofs.EncBuiltinFacts.
+From PLV Require Import L2T.L2TWire.
+From PLV Require Import Proofs.EncBuiltinFacts Proofs.FastProtection.
 From PLV Require Gen.GenUni2Latex.
 From PLV Require Import Gen.GenBaseline.
 Import ListNotations.
@@ -17,7 +18,29 @@ Definition policies : list sls := [sls_macros; sls_alltrue].
 (** * Boolean form of "the round trip returns the input" *)
 Definition opt_str_eqb (a : option str) (b : str) : bool :=
   match a with Some x => str_eqb x b | None => false end.
-Definition roundtrip_ok (p : prot) (sl : sls) (s : str) : bool := opt_str_eqb (roundtrip p sl s) s.
+
+(** the decode half of the round trip *)
+Definition decode (sl : sls) (t : str) : option str :=
+  match latex_to_text (l2t_opts sl) t false with
+  | Some (txt, st) => match d_err st with None => Some txt | Some _ => None end
+  | None => None
+  end.
+
+(** the round trip of a string is the decoding of the concatenated chunks
+    (all strings; [encode_builtin_keep]) ... *)
+Lemma roundtrip_is_decode_of_chunks p sl s :
+  roundtrip p sl s = decode sl (concat (map (keep_chunk false p) s)).
+Proof. unfold roundtrip, decode. now rewrite encode_builtin_keep. Qed.
+
+(** ... which the sweeps evaluate with the cheaper, provably equal form of the
+    protection ([Proofs/FastProtection.v]) *)
+Definition roundtrip_fast (p : prot) (sl : sls) (s : str) : option str :=
+  decode sl (concat (map (keep_chunk_fast false p) s)).
+
+Lemma roundtrip_fast_eq p sl s : roundtrip p sl s = roundtrip_fast p sl s.
+Proof. rewrite roundtrip_is_decode_of_chunks. unfold roundtrip_fast. now rewrite map_keep_chunk_fast. Qed.
+
+Definition roundtrip_ok (p : prot) (sl : sls) (s : str) : bool := opt_str_eqb (roundtrip_fast p sl s) s.
 
 Lemma str_eqb_true (a b : str) : str_eqb a b = true -> a = b.
 Proof.
@@ -28,7 +51,7 @@ Qed.
 
 Lemma roundtrip_ok_true p sl s : roundtrip_ok p sl s = true -> roundtrip p sl s = Some s.
 Proof.
-  unfold roundtrip_ok, opt_str_eqb. destruct (roundtrip p sl s); [|discriminate].
+  rewrite roundtrip_fast_eq. unfold roundtrip_ok, opt_str_eqb. destruct (roundtrip_fast p sl s); [|discriminate].
   intros H. now rewrite (str_eqb_true _ _ H).
 Qed.
 
@@ -115,7 +138,6 @@ Fixpoint has_ligature (s : str) : bool :=
   end.
 
 (** * Classes of characters by the shape of their chunk *)
-Definition is_letter (c : N) : bool := ((65 <=? c) && (c <=? 90)) || ((97 <=? c) && (c <=? 122)).
 Definition is_digit (c : N) : bool := (48 <=? c) && (c <=? 57).
 
 (** class of one character of the LaTeX text: letter 1, digit 2, space 3,
@@ -133,10 +155,11 @@ Definition ends_control_symbol (r : str) : bool :=
   end.
 
 (** how the chunk ends: a control word that would swallow following letters /
-    spaces (6), a control symbol (2000000 + the symbol), a closing brace (7),
+    spaces (6; [dangling_fast] = the encoder's own [dangling_macro] on the ASCII
+    strings of the table, [FastProtection.dangling_fast_eq]), a control symbol (2000000 + the symbol), a closing brace (7),
     otherwise the class of the last character *)
 Definition end_class (r : str) : N :=
-  if dangling_macro r then 6
+  if dangling_fast r then 6
   else if ends_control_symbol r then 2000000 + last r 0
   else if last r 0 =? 125 then 7
   else cclass (last r 0).
@@ -159,14 +182,14 @@ Fixpoint add_member (k : N * N) (c : N) (acc : list (N * N * list N)) : list (N 
 Definition class_table (l : list N) : list (N * N * list N) :=
   fold_left (fun acc c => add_member (shape c) c acc) l [].
 
-(** representatives: every member of a class with at most four members,
-    otherwise four members spread evenly over the class in increasing
-    code-point order (the first, the one at 1/3, the one at 2/3, the last) *)
-Definition pick4 (l : list N) : list N :=
+(** representatives: every member of a class with at most eight members,
+    otherwise eight members spread evenly over the class in increasing
+    code-point order (positions i*(n-1)/7, i = 0..7: the first, ..., the last) *)
+Definition pick8 (l : list N) : list N :=
   let n := length l in
-  if Nat.leb n 4 then l
-  else [nth 0 l 0; nth (n / 3) l 0; nth (2 * n / 3) l 0; nth (n - 1) l 0].
-Definition reps_of (e : N * N * list N) : list N := pick4 (rev (snd e)).
+  if Nat.leb n 8 then l
+  else map (fun i => nth (i * (n - 1) / 7) l 0) (seq 0 8).
+Definition reps_of (e : N * N * list N) : list N := pick8 (rev (snd e)).
 Definition representatives : list N := flat_map reps_of (class_table c08_alphabet).
 Definition rep_shapes : list (N * N) := map shape representatives.
 
